@@ -36,25 +36,43 @@ Proof.
   now apply existsb_removelast.
 Qed.
 
-Lemma junit_char : forall c,
-  ((c =? 9) || (c =? 13) || is_c1 c) = false -> ((c =? 65534) || (c =? 65535)) = false ->
-  (if negb (is_c0_not_lf c || is_c1 c) then negb (xml_c0 c) else false) = xml_valid c.
+Lemma filter_filter : forall (A : Type) (f g : A -> bool) l,
+  filter g (filter f l) = filter (fun x => f x && g x) l.
 Proof.
-  intros c H1 H2. unfold is_c0_not_lf, is_c1, xml_c0, xml_valid in *.
-  destruct (negb ((c <? 32) && negb (c =? 10) || (128 <=? c) && (c <=? 159))) eqn:E; lia.
+  intros A f g l. induction l as [|x t IH]; [reflexivity|]. cbn [filter].
+  destruct (f x); cbn [filter andb]; [destruct (g x); now rewrite IH | exact IH].
 Qed.
 
-Lemma junit_outside_known : forall s,
-  known_F13_junit s = false -> known_F14 s = false -> junit_impl s = junit_doc s.
+Definition keep (c : N) : bool :=
+  negb (is_c0_not_lf c || is_c1 c) && negb (xml_c0 c) && negb (is_nonchar c).
+
+Lemma junit_impl_filter : forall s, junit_impl s = filter keep s.
 Proof.
-  intros s. unfold junit_impl, junit_doc, strip_impl, strip_doc, known_F13_junit, known_F14.
-  induction s as [|c t IH]; [reflexivity|]. cbn [existsb filter]. intros H1 H2.
-  apply orb_false_iff in H1. destruct H1 as [H1 H1'].
-  apply orb_false_iff in H2. destruct H2 as [H2 H2'].
-  pose proof (junit_char c H1 H2) as J.
-  destruct (negb (is_c0_not_lf c || is_c1 c)); cbn [filter].
-  - rewrite J. destruct (xml_valid c); now rewrite IH.
-  - rewrite <- J. now apply IH.
+  intros s. unfold junit_impl, junit_impl_unfixed, strip_impl. rewrite !filter_filter.
+  apply filter_ext. intros c. unfold keep. cbn beta.
+  destruct (negb (is_c0_not_lf c || is_c1 c)), (negb (xml_c0 c)), (negb (is_nonchar c)); reflexivity.
+Qed.
+
+Lemma keep_valid : forall c, keep c = true -> xml_valid c = true.
+Proof. intros c. unfold keep, is_c0_not_lf, is_c1, xml_c0, is_nonchar, xml_valid. lia. Qed.
+
+Lemma keep_is_valid_outside : forall c,
+  ((c =? 9) || (c =? 13) || is_c1 c) = false -> keep c = xml_valid c.
+Proof. intros c. unfold keep, is_c0_not_lf, is_c1, xml_c0, is_nonchar, xml_valid. lia. Qed.
+
+Lemma junit_valid : forall s, xml_text_ok (junit_impl s) = true.
+Proof.
+  intros s. rewrite junit_impl_filter. unfold xml_text_ok.
+  induction s as [|c t IH]; [reflexivity|]. cbn [filter].
+  destruct (keep c) eqn:K; [cbn [forallb]; rewrite (keep_valid c K); exact IH | exact IH].
+Qed.
+
+Lemma junit_outside_known : forall s, known_F13_junit s = false -> junit_impl s = junit_doc s.
+Proof.
+  intros s. rewrite junit_impl_filter. unfold junit_doc, strip_doc, known_F13_junit.
+  induction s as [|c t IH]; [reflexivity|]. cbn [existsb filter]. intros H.
+  apply orb_false_iff in H. destruct H as [H1 H2].
+  rewrite (keep_is_valid_outside c H1). destruct (xml_valid c); now rewrite IH.
 Qed.
 
 Lemma junit_doc_ok : forall s, xml_text_ok (junit_doc s) = true.
